@@ -255,6 +255,17 @@ impl Store {
 
         new_store.sync()?;
 
+        // Close the backup. LMDB environments stay open (and cached by path) until
+        // explicitly closed, and a later rebuild opens this same path again.
+        drop(old_txn);
+        let Store {
+            events: old_events,
+            indexes: old_indexes,
+            ..
+        } = old_store;
+        old_indexes.close()?;
+        drop(old_events);
+
         if need_chown {
             std::os::unix::fs::chown(&events_path, Some(file_uid), None)?;
 
